@@ -179,3 +179,44 @@ void harness(void)
 	V_CANARY();
 }
 #endif
+
+#if defined(UNIT_FORMATPRE)
+/* mpt_parse_format_pre (the '*' family element parser) with its callees by stand-in: the character functions
+ * mpt_parse_nextvis/_getchar/_endline are the real bodies on the ghost input; the path operations, the name check and
+ * the option/data parsers are stand-ins that record the order of calls and check what they are handed.
+ * Decided: result is a documented element code or an error; the current-operation field agrees with it; a name is moved
+ * into the path (mpt_path_add) with exactly the number of valid post bytes counted so far, after it passed the name
+ * check; the data parser starts with an empty valid count; each character is read once. */
+static int g_addchars, g_adds, g_add_len, g_nchecks, g_ncheck_len, g_ncheck_ret, g_datas, g_data_valid_at_entry, g_data_ret, g_opts, g_opt_ret, g_pvalid, g_invalidates, g_order_bad;
+static char h_pbuf[NIN + 4];
+int mpt_path_addchar(MPT_STRUCT(path) *p, int c) { (void) c; g_addchars++; if (!p->base) p->base = h_pbuf; return 1; }
+int mpt_path_valid(MPT_STRUCT(path) *p) { (void) p; return g_pvalid = g_addchars; }     /* post bytes so far */
+int mpt_path_add(MPT_STRUCT(path) *p, int len) { (void) p; g_adds++; g_add_len = len; if (g_nchecks != g_adds) g_order_bad = 1; return 0; }
+int mpt_path_invalidate(MPT_STRUCT(path) *p) { (void) p; g_invalidates++; return 0; }
+int mpt_parse_ncheck(const char *name, size_t len, int take) { (void) name; (void) take; g_nchecks++; g_ncheck_len = (int) len; return g_ncheck_ret; }
+int mpt_parse_data(const MPT_STRUCT(parser_format) *f, MPT_STRUCT(parser_context) *pc, MPT_STRUCT(path) *p) { (void) f; (void) p; g_datas++; g_data_valid_at_entry = pc->valid; if (g_adds != 1) g_order_bad = 1; return g_data_ret; }
+int mpt_parse_option(const MPT_STRUCT(parser_format) *f, MPT_STRUCT(parser_context) *pc, MPT_STRUCT(path) *p) { (void) f; (void) pc; (void) p; g_opts++; return g_opt_ret; }
+void harness(void)
+{
+	uint8_t in_bytes[NIN]; IN(size_t, in_n); IN(int, in_ncheck_ret); IN(int, in_data_ret); IN(int, in_opt_ret);
+	MPT_STRUCT(parser_format) fmt = MPT_PARSER_FORMAT_INIT; MPT_STRUCT(parser_context) pc = MPT_PARSER_INIT; MPT_STRUCT(path) path = MPT_PATH_INIT;
+	int r; size_t i;
+	V_FILL(in_bytes);
+	H_CTYPE_INIT();
+	V_REQ(in_n <= NIN && in_ncheck_ret <= 0 && in_data_ret >= -32 && in_data_ret <= 0xffff && in_opt_ret >= -32 && in_opt_ret <= 7);
+	for (i = 0; i < NIN; i++) g_in[i] = in_bytes[i];
+	g_n = in_n; g_pos = g_calls = 0; g_ncheck_ret = in_ncheck_ret; g_data_ret = in_data_ret; g_opt_ret = in_opt_ret;
+	pc.src.getc = h_getc; pc.src.arg = 0;
+	r = mpt_parse_format_pre(&fmt, &pc, &path);
+	V_CHECK("element: each character is read once (at most two reads beyond the end of input)", g_calls <= in_n + 2 && g_pos <= in_n);
+	V_CHECK("element: result is an element code or an error", r < 0 || r == 0 || r == MPT_PARSEFLAG(Section) || r == MPT_PARSEFLAG(SectEnd) || r == MPT_PARSEFLAG(Option) || r == (MPT_PARSEFLAG(Option) | MPT_PARSEFLAG(Data)) || r == MPT_PARSEFLAG(Data) || (g_opts && r == in_opt_ret));
+	V_CHECK("element: a name is moved into the path only after it passed the name check, with the valid length that was checked", !g_order_bad && IMP(g_adds, g_nchecks == g_adds && g_add_len == g_ncheck_len && in_ncheck_ret == 0) && IMP(g_nchecks && in_ncheck_ret < 0, r < 0 && g_adds == 0));
+	V_CHECK("element: the data part of an option starts with an empty valid count and decides between Option and Option|Data", IMP(g_datas, g_datas == 1 && g_data_valid_at_entry == 0 && g_invalidates >= 1 && (in_data_ret < 0 ? r == in_data_ret : (in_data_ret == 0 ? r == MPT_PARSEFLAG(Option) : r == (MPT_PARSEFLAG(Option) | MPT_PARSEFLAG(Data))))));
+	V_CHECK("element: section start / end reported with the matching current operation", IMP(!g_opts && r == MPT_PARSEFLAG(Section), g_adds == 1 && (pc.curr & MPT_PARSEFLAG(Section))) && IMP(!g_opts && r == MPT_PARSEFLAG(SectEnd), pc.curr == MPT_PARSEFLAG(SectEnd) && g_adds == 0));
+	V_CHECK("element: end of input before any element is a clean end", IMP(in_n == 0, r == 0));
+	V_COVER("option with data", g_datas == 1 && r == (MPT_PARSEFLAG(Option) | MPT_PARSEFLAG(Data)));
+	V_COVER("section opened", r == MPT_PARSEFLAG(Section) && g_addchars >= 2);
+	V_COVER("section end", r == MPT_PARSEFLAG(SectEnd));
+	V_CANARY();
+}
+#endif
